@@ -667,7 +667,8 @@ def evaluate_fresh(engine_mod, config, exe, plan_path, prop, opts=None):
 def split_plan(plan):
     """Header lines (not removable) and body lines.  A body starts at the first line that is
     not one of the header keywords."""
-    hdr_kw = ('relic-sim-plan', 'engine', 'config', 'seed', 'entropy', 'fill', 'param', 'profile', 'hdr')
+    hdr_kw = ('relic-sim-plan', 'engine', 'config', 'seed', 'entropy', 'fill', 'param', 'profile', 'hdr',
+              'ENTROPY', 'CURVE', 'KEYBITS')
     hdr, body = [], []
     for ln in plan.split('\n'):
         if not ln.strip():
@@ -695,7 +696,10 @@ def shrink(engine_mod, config, exe, plan, prop, sig, opts=None, budget_runs=300,
         if runs[0] >= budget_runs or time.time() - t0 > budget_s:
             return False
         runs[0] += 1
-        sigs, _, _ = evaluate_plan(engine_mod, config, exe, p, prop, ex=ex, opts=opts)
+        try:
+            sigs, _, _ = evaluate_plan(engine_mod, config, exe, p, prop, ex=ex, opts=opts)
+        except Exception:
+            return False        # a candidate the oracle cannot interpret is not a smaller failing plan
         return any(s == sig for _, s, _ in sigs)
 
     try:
